@@ -392,6 +392,12 @@ func init() {
 			RA := lbase + A
 			B := int(inst & 0x1ff) //GETB
 			unaryv := L.rkValue(B)
+			if str, ok1 := unaryv.(LString); ok1 {
+				// as in luaV_arith, a string that converts to a number is computed; only other operands go to a handler
+				if num, err := parseNumber(string(str)); err == nil {
+					unaryv = num
+				}
+			}
 			if nm, ok := unaryv.(LNumber); ok {
 				// +inline-call reg.Set RA -nm
 			} else {
@@ -933,14 +939,9 @@ func objectArith(L *LState, opcode int, lhs, rhs LValue) LValue {
 	case OP_POW:
 		event = "__pow"
 	}
-	op := L.metaOp2(lhs, rhs, event)
-	if _, ok := op.(*LFunction); ok {
-		L.reg.Push(op)
-		L.reg.Push(lhs)
-		L.reg.Push(rhs)
-		L.Call(2, 1)
-		return L.reg.Pop()
-	}
+	// as in luaV_arith, operands that convert to numbers are computed; only the others go to a handler,
+	// which gets the operands as they were
+	olhs, orhs := lhs, rhs
 	if str, ok := lhs.(LString); ok {
 		if lnum, err := parseNumber(string(str)); err == nil {
 			lhs = lnum
@@ -955,6 +956,14 @@ func objectArith(L *LState, opcode int, lhs, rhs LValue) LValue {
 		if v2, ok2 := rhs.(LNumber); ok2 {
 			return numberArith(L, opcode, LNumber(v1), LNumber(v2))
 		}
+	}
+	op := L.metaOp2(olhs, orhs, event)
+	if _, ok := op.(*LFunction); ok {
+		L.reg.Push(op)
+		L.reg.Push(olhs)
+		L.reg.Push(orhs)
+		L.Call(2, 1)
+		return L.reg.Pop()
 	}
 	L.RaiseError(fmt.Sprintf("cannot perform %v operation between %v and %v",
 		strings.TrimLeft(event, "_"), lhs.Type().String(), rhs.Type().String()))
